@@ -2,6 +2,7 @@ package sim
 
 import (
 	"encoding/hex"
+	"fmt"
 	"math/big"
 	"strings"
 	"time"
@@ -39,6 +40,8 @@ type C03Monitor struct {
 	lastBlockTime  time.Time
 	lastBlockInit  bool
 	mintStartExact time.Time
+	initAt         time.Time // time of the block in which the minter was seen initialised for the first time
+	wasInit        bool
 }
 
 func NewC03Monitor(st *Stats) *C03Monitor {
@@ -103,6 +106,18 @@ func (m *C03Monitor) BeginBlockExit(c *Chain, ctx sdk.Context, err error) {
 		}
 		if m.mintStart == 0 {
 			m.mintStart = m.s1Minter.PreviousBlockTime.UnixMilli()
+		}
+	}
+	// "time-based minting after governance has started it": whatever the module stored as previous block time, the
+	// first provision cannot cover time before the block in which the minter was started
+	if m.s1Minter.Initialized && !m.lastBlockInit && !m.initAt.IsZero() {
+		dmsInit := ctx.BlockTime().Sub(m.initAt).Milliseconds()
+		x := new(big.Int).Mul(big.NewInt(146_940_000), big.NewInt(dmsInit))
+		x.Quo(x, big.NewInt(86_400_000))
+		m.st.Bucket("c03|first-provision-after-start|stored-previous-time=%v", m.s1Minter.PreviousBlockTime != nil)
+		if bound := math.NewIntFromBigInt(x); expMint.GT(bound) {
+			c.Violate("C03", "c03", "provision-covers-time-before-the-minter-was-started", map[string]interface{}{"provision_by_stored_time": expMint.String(), "bound_since_start": bound.String(), "started_at": m.initAt.String(), "stored_previous": fmt.Sprint(m.s1Minter.PreviousBlockTime)})
+			expMint = bound
 		}
 	}
 	delta := s.Sub(m.prev)
@@ -223,6 +238,12 @@ func (m *C03Monitor) EndBlockExit(c *Chain, ctx sdk.Context, err error) {
 }
 
 func (m *C03Monitor) AfterCommit(c *Chain, ctx sdk.Context, br *BlockResult) {
+	if mn, err := c.App.MintKeeper.Minter.Get(ctx); err == nil {
+		if mn.Initialized && !m.wasInit {
+			m.initAt = ctx.BlockTime()
+		}
+		m.wasInit = mn.Initialized
+	}
 	// Σ balances == supply, and the SDK's own invariant
 	sum := math.ZeroInt()
 	c.App.BankKeeper.IterateAllBalances(ctx, func(_ sdk.AccAddress, coin sdk.Coin) bool {
